@@ -147,11 +147,12 @@ for W, nd, mb, tier in ((8, 6, 8, "quick"), (64, 2, 18, "thorough"), (32, 2, 10,
 # ------------------------------------------------------------------ rung 2: multiplicative layer (modular, W=8, small capacities)
 def vb(bitlen):  # narrow spec vector for product/division specs
     return ["VF_BN_VBITS=%d" % (2 * bitlen + 16)]
+DISTRIB_ASSUME = "algebraic glue (not checked by CBMC): sum_i (d*b_i)*B^i == d * sum_i b_i*B^i - the digit-array multiply functions are proved against the sum of per-digit products; their callers use the closed product form"
 R2 = [
  # (key, enforced, replaced callees, digit counts quick, thorough)
- ("digits_mult_digit", "bn_digits_mult_digit__int", ["bn_digit_mult__int", "bn_digits_l_shift", "bn_digit_ctz"], (2,), (3,)),
- ("digits_add_digit_mult", "bn_digits_add_digit_mult__int", ["bn_digit_mult__int", "bn_digits_add", "bn_digits_add_digit"], (2,), (3,)),
- ("digits_sub_digit_mult", "bn_digits_sub_digit_mult__int", ["bn_digit_mult__int", "bn_digits_sub__int", "bn_digits_sub_digit"], (2,), (3,)),
+ ("digits_mult_digit", "bn_digits_mult_digit__int", ["bn_digit_mult__int", "bn_digits_l_shift", "bn_digit_ctz"], (4,), ()),
+ ("digits_add_digit_mult", "bn_digits_add_digit_mult__int", ["bn_digit_mult__int", "bn_digits_add", "bn_digits_add_digit"], (4,), ()),
+ ("digits_sub_digit_mult", "bn_digits_sub_digit_mult__int", ["bn_digit_mult__int", "bn_digits_sub__int", "bn_digits_sub_digit"], (4,), ()),
  ("mult", "bn_mult", ["bn_digits_add_digit_mult__int", "bn_assign_init", "bn_cmp", "bn_is_zero", "bn_assign_zero", "bn_init_digits__int", "bn_update_digits__int"], (2,), (3,)),
  ("square", "bn_square", ["bn_mult"], (2,), (4,)),
  ("mult_digit", "bn_mult_digit", ["bn_digits_mult_digit__int", "bn_add", "bn_assign_init", "bn_is_zero", "bn_assign_zero", "bn_init_digits__int", "bn_update_digits__int"], (3,), (4,)),
@@ -161,10 +162,36 @@ for key, full, repl, qn, tn in R2:
         tier = "quick" if nd in qn else "thorough"
         W = 8
         job("r2.%s.w%d.n%d" % (full, W, nd), "bn2.c",
-            cfg(W, True, bitlen=W * nd, extra=["VF_FN_" + key] + vb(W * nd)),
-            enforce=[full], replace=repl, functions=[full], route="bounded",
+            cfg(W, True, bitlen=W * nd, extra=["VF_FN_" + key] + vb(W * nd) + ([] if key.startswith("digits_") else ["VF_BN_ASSUME_DISTRIB"])),
+            enforce=[full], replace=repl, functions=[full], route="bounded", backend="kissat",
+            assumptions=[] if key.startswith("digits_") else [DISTRIB_ASSUME],
             bound="W = 8, capacity %d digits (symbolic count, digits, stale digits, aliasing); callees replaced by their rung 0/1 contracts" % nd,
-            tier=tier, timeout=600, cbmc=["--unwind", str(nd + 2), "--unwindset", "__CPROVER_contracts_write_set_check_assigns_clause_inclusion.0:40,__CPROVER_contracts_write_set_check_frees_clause_inclusion.0:40", "--unwinding-assertions", "--object-bits", "10"])
+            tier=tier, timeout=600, cbmc=["--unwind", str(max(nd + 2, W + 2)), "--unwindset", "__CPROVER_contracts_write_set_check_assigns_clause_inclusion.0:40,__CPROVER_contracts_write_set_check_frees_clause_inclusion.0:40", "--unwinding-assertions", "--object-bits", "10"])
+
+DIV_REPL = ["bn_is_zero", "bn_cmp", "bn_assign_digit", "bn_assign_zero", "bn_assign", "bn_digit_clz", "bn_assign_init",
+            "bn_init_digits__int", "bn_l_shift", "bn_r_shift", "bn_digit_div__int_short", "bn_digits_sub_digit_mult__int",
+            "bn_digits_cmp", "bn_digits_sub__int", "bn_update_digits__int"]
+for nd, tier in ((2, "thorough"), (3, "thorough")):
+    W = 8
+    job("r2.bn_div.w%d.n%d" % (W, nd), "bn2.c",
+        cfg(W, True, bitlen=W * nd, extra=["VF_FN_div", "VF_BN_ASSUME_DISTRIB"] + vb(W * nd)),
+        enforce=["bn_div"], replace=DIV_REPL, functions=["bn_div"], route="bounded", backend="kissat",
+        bound="W = 8, capacity %d digits, all four remainder forms (separate object, NULL, remainder == bn, bn == d); quotient-correction loop unwound 6 times with unwinding assertion; callees replaced by their contracts" % nd,
+        assumptions=[DISTRIB_ASSUME], tier=tier, timeout=1200,
+        cbmc=["--unwind", "7", "--unwindset", "__CPROVER_contracts_write_set_check_assigns_clause_inclusion.0:40,__CPROVER_contracts_write_set_check_frees_clause_inclusion.0:40", "--unwinding-assertions", "--object-bits", "10"])
+
+# ------------------------------------------------------------------ rung 2: recodings (plain, monolithic, bounded scalars)
+for key, full in (("naf", "bn_calc_naf"), ("jsf", "bn_calc_jsf"), ("combo", "bn_combo_column_get")):
+    for bits, tier in ((8, "quick"), (16, "thorough")):
+        if key == "combo" and bits == 16:
+            continue
+        k = bits + 4
+        us = "harness.0:60,harness.1:60,harness.2:60,harness.3:60,bn_calc_naf.0:%d,bn_calc_naf.1:%d,bn_calc_jsf.0:%d,bn_calc_jsf.1:%d,bn_calc_jsf.2:%d,vf_small_bits.0:34,vf_small_val.0:6" % (k, k, k, k, k)
+        job("r2.%s.w8.b%d" % (full, bits), "recode.c", cfg(8, True, bitlen=bits + 8, extra=["VF_FN_" + key, "VF_RC_BITS=%d" % bits]),
+            mode="plain", functions=[full], route="bounded",
+            bound="W = 8, scalars of at most %d bit (every value incl. zero, stale digits, symbolic array size%s); whole function executed, loops fully unwound" % (bits, ", window 2..5" if key == "naf" else ""),
+            tier=tier, timeout=900, backend="kissat",
+            cbmc=["--unwind", "5", "--unwindset", us, "--unwinding-assertions"])
 
 # ------------------------------------------------------------------ rung 3, straight-line modular compositions (modular proofs)
 R3 = [
